@@ -297,3 +297,87 @@ def c14_random(seed, n, maxlen=12):
     r = random.Random(seed)
     ops = c14_all_ops()
     return [c14_scenario([r.choice(ops) for _ in range(r.randrange(3, maxlen + 1))]) for _ in range(n)]
+
+
+# ---- C04 / C08: numbers -----------------------------------------------------------------------
+def _num_literal(r):
+    c = r.randrange(12)
+    if c == 0:
+        return r.choice(['0', '1', '2', '3', '7', '10', '100', '0.1', '0.2', '0.3', '0.5', '1.5', '2.5', '0.25', '0.125'])
+    if c == 1:
+        return '9' * r.choice([1, 5, 27, 28, 29, 40])
+    if c == 2:
+        return '0.' + '0' * r.randrange(0, 30) + str(r.randrange(1, 10 ** r.randrange(1, 12)))
+    if c == 3:
+        return str(r.randrange(10 ** r.choice([1, 8, 26, 27, 28, 29]))) + '.' + ''.join(r.choice('0123456789') for _ in range(r.randrange(1, 30)))
+    if c == 4:      # ties at the 28th significant digit
+        return '1' + ''.join(r.choice('0123456789') for _ in range(26)) + r.choice(['05', '15', '25', '50', '49', '51', '5'])
+    if c == 5:
+        return '1' + '0' * r.choice([1, 5, 27, 28, 30])
+    if c == 6:
+        return '00' + str(r.randrange(1000)) + '.' + str(r.randrange(1000)) + '00'
+    if c == 7:
+        return str(r.randrange(1, 1000)) + '.' + '9' * r.choice([1, 5, 27, 28, 29])
+    return str(r.randrange(0, 10 ** r.choice([1, 2, 3, 6]))) + r.choice(['', '.5', '.25', '.01', '.333', '.10'])
+
+
+def _num_expr(r, d, names):
+    if d <= 0 or r.random() < 0.2:
+        if names and r.random() < 0.35:
+            return r.choice(names)
+        return _num_literal(r)
+    c = r.randrange(14)
+    e = lambda: _num_expr(r, d - 1, names)   # noqa
+    if c < 6:
+        return '(%s %s %s)' % (e(), r.choice(['+', '-', '*', '/', '+', '-']), e())
+    if c == 6:
+        return '(- %s)' % e()
+    if c == 7:
+        return '%s(%s)' % (r.choice(['int', 'round', 'floor', 'ceil', 'abs']), e())
+    if c == 8:
+        return 'round(%s, %s)' % (e(), r.choice(['0', '1', '2', '5', '10', '27', '-1', '30']))
+    if c == 9:
+        return '%s([%s])' % (r.choice(['sum', 'min', 'max']), ', '.join(e() for _ in range(r.randrange(1, 4))))
+    if c == 10:
+        return '%s(%s, %s)' % (r.choice(['min', 'max']), e(), e())
+    if c == 11:
+        return '(%s ** %s)' % (e(), r.choice(['2', '3', '0', '1', '10', '0.5', '-1', '100']))
+    if c == 12:
+        return 'float(%s)' % e()
+    return _num_literal(r)
+
+
+def numeric_programs(seed, n, host_types=False, depth=3):
+    """Expression trees over + - * / unary minus, comparisons and the numeric builtins with boundary
+    literals; with host_types also host ints / floats / Decimals / bools (and non-numbers) as operands
+    and compound assignment chains."""
+    r = random.Random(seed)
+    out = []
+    for i in range(n):
+        names = {}
+        if host_types:
+            pool = [0, 1, -1, 7, 10 ** 27, 10 ** 28 - 1, 10 ** 28, 10 ** 40, -(10 ** 30), True, False, 0.1, 2.5, 1e300, 5e-324, -0.75, 1e16,
+                    Decimal('1E+100'), Decimal('1E-100'), Decimal('9.99E+2999'), Decimal('0'), Decimal('-2.5'), Decimal('9' * 40),
+                    Decimal('1E+40'), Decimal('123456789012345678901234567.5'), 'ab', [1, 2], None, Decimal('1E+5'), 12345]
+            for k in r.sample(['p', 'q', 'u', 'w'], r.randrange(1, 4)):
+                names[k] = r.choice(pool)
+        nm = sorted(names)
+        lines = []
+        for _ in range(r.randrange(1, 4)):
+            c = r.randrange(8)
+            if c == 0 and nm:
+                lines.append('%s %s %s' % (r.choice(nm), r.choice(['+=', '-=', '*=', '/=', '*=', '*=']), _num_expr(r, 1, nm)))
+            elif c == 1:
+                v = r.choice(['y', 'z'])
+                lines.append('%s = %s' % (v, _num_expr(r, depth, nm)))
+                names.setdefault(v, None)
+                nm = sorted(k for k in names)
+            elif c == 2 and nm:
+                lines.append('c = [%s]\nc[0] %s %s\nc' % (r.choice(nm), r.choice(['*=', '+=', '/=']), _num_expr(r, 1, nm)))
+            elif c == 3:
+                lines.append('(%s %s %s)' % (_num_expr(r, depth - 1, nm), r.choice(['==', '<', '<=', '>', '!=', '>=']), _num_expr(r, depth - 1, nm)))
+            else:
+                lines.append(_num_expr(r, depth, nm))
+        names = {k: v for k, v in names.items() if v is not None or k in ('p', 'q', 'u', 'w')}
+        out.append({'names': [names], 'host': {}, 'calls': [{'src': '\n'.join(lines), 'n': 0, 'max': 400}]})
+    return out
